@@ -150,6 +150,10 @@ UNTYPED_DOMAIN = """(define (domain untyped) (:requirements :strips)
  (:predicates (pu ?a))
  (:action au :parameters (?a) :precondition (and (pu ?a)) :effect (and (not (pu ?a)))))"""
 
+# calls whose result must not depend on what the operator object was used for before (compared with the same call made
+# by a freshly built operator)
+HISTORY_FREE = ("applicable", "applicable_other_state", "apply", "apply_allow", "apply_skip", "apply_other_state")
+
 CALLS = ["ground", "applicable", "apply", "apply_allow", "apply_skip", "reapply_result", "second_operator_apply", "str_action",
          "print_plain", "print_simplified", "serialize", "export", "new_domain", "shallow_copy", "parse_other", "parse_untyped",
          "combine_domains", "typed_action_call", "applicable_other_state", "apply_other_state"]
@@ -172,11 +176,9 @@ class History:
         if call == "applicable":
             return ("bool", bool(op.is_applicable(s)))
         if call == "applicable_other_state":
-            op.is_applicable(self.state2)
-            return ("none",)
+            return ("bool", bool(op.is_applicable(self.state2)))
         if call == "apply_other_state":
-            op.apply(self.state2, allow_inapplicable_actions=True)
-            return ("none",)
+            return ("state", op.apply(self.state2, allow_inapplicable_actions=True))
         if call in ("apply", "apply_allow", "apply_skip"):
             kw = {"apply": {}, "apply_allow": {"allow_inapplicable_actions": True},
                   "apply_skip": {"skip_validation": True}}[call]
@@ -268,7 +270,11 @@ def run_history(task):
             # a second, independent state over the same facts with its own fluent values; optionally the first state
             # leaves one fluent undefined (the library reads an undefined fluent as 0)
             fl2 = {f: SymReal(z3.Real("v2" + f)) for f in prep.all_fluents}
-            state2, _ = world.make_state({a: SymBool(prep.vars.atom(a)) for a in prep.sym_atoms}, fl2)
+            if task.get("state2_atoms") == "independent":
+                at2 = {a: SymBool(z3.Bool("a2" + a)) for a in prep.sym_atoms}
+            else:
+                at2 = {a: SymBool(prep.vars.atom(a)) for a in prep.sym_atoms}
+            state2, _ = world.make_state(at2, fl2)
             if task.get("omit") and task["omit"] in keys:
                 del state.state_fluents[keys[task["omit"]]]
             h = History(world, state, task, state2)
@@ -278,9 +284,16 @@ def run_history(task):
             d_dom, d_state = digest_domain(world.domain), digest_state(state)
             d_res = [digest_state(r) for r in h.results]
             del WRITES[:]
-            h.run(c2)
+            v2 = h.run(c2)
             writes2 = list(WRITES)
             problems = []
+            if c2 in HISTORY_FREE:
+                try:
+                    v2_fresh = History(world, state, task, state2).run(c2)
+                except Exception as e:  # noqa
+                    v2_fresh = ("raised", type(e).__name__)
+                if not results_equal(ctx, v2, v2_fresh):
+                    problems.append(f"{c2} after {c1} returned a different result than {c2} by a freshly built operator")
             if writes1 and c1 not in ("combine_domains",):
                 problems.append(f"{c1} wrote to shared containers: {writes1[:3]}")
             if writes2 and c2 not in ("combine_domains",):
@@ -335,7 +348,11 @@ def _model(ctx, prep):
         return None
     m = ctx.solver.model()
     atoms, fls = callsym.model_assignment(m, prep)
-    return {"atoms_true": sorted(a for a, v in atoms.items() if v), "fluents": {f: lib.to_float(v) for f, v in fls.items()}}
+    out = {"atoms_true": sorted(a for a, v in atoms.items() if v), "fluents": {f: lib.to_float(v) for f, v in fls.items()}}
+    # the second state: its own fluent values and (when independent) its own facts
+    out["fluents2"] = {f: lib.to_float(core.zval(m, z3.Real("v2" + f))) for f in prep.all_fluents}
+    out["atoms2_true"] = sorted(a for a in prep.sym_atoms if z3.is_true(m.eval(z3.Bool("a2" + a), model_completion=True)))
+    return out
 
 
 def replay_history(task, state):
@@ -349,7 +366,10 @@ def replay_history(task, state):
     fl = {f: 0.0 for f in prep.all_fluents}
     fl.update(state.get("fluents", {}))
     s, keys = callsym.concrete_state(world, prep, {a: True for a in state.get("atoms_true", [])}, fl)
-    s2, _ = callsym.concrete_state(world, prep, {a: True for a in state.get("atoms_true", [])}, {f: v + 3.5 for f, v in fl.items()})
+    fl2 = {f: v + 3.5 for f, v in fl.items()}
+    fl2.update(state.get("fluents2", {}))
+    at2 = state.get("atoms2_true") if task.get("state2_atoms") == "independent" else state.get("atoms_true", [])
+    s2, _ = callsym.concrete_state(world, prep, {a: True for a in (at2 or [])}, fl2)
     if task.get("omit") and task["omit"] in keys:
         del s.state_fluents[keys[task["omit"]]]
     h = History(world, s, task, s2)
@@ -364,9 +384,21 @@ def replay_history(task, state):
     w1 = list(WRITES)
     d_dom, d_state, d_res = digest_domain(world.domain), digest_state(s), [digest_state(r) for r in h.results]
     del WRITES[:]
-    h.run(task["c2"])
+    v2 = h.run(task["c2"])
     w2 = list(WRITES)
     problems = []
+
+    def differ(a, b):
+        return a[0] != b[0] or (a[0] == "state" and (digest_state(a[1])[0] != digest_state(b[1])[0] or digest_state(a[1])[1] != digest_state(b[1])[1])) \
+            or (a[0] in ("bool", "text", "tokens") and a[1] != b[1])
+
+    if task["c2"] in HISTORY_FREE:
+        try:
+            v2_fresh = History(world, s, task, s2).run(task["c2"])
+        except Exception as e:  # noqa
+            v2_fresh = ("raised", type(e).__name__)
+        if differ(v2, v2_fresh):
+            problems.append(f"{task['c2']} after {task['c1']} differs from the same call by a freshly built operator")
     if w1 and task["c1"] != "combine_domains":
         problems.append(f"{task['c1']} wrote {w1[:3]}")
     if w2 and (task["c2"] != "combine_domains" or any("DEFAULT_TYPES" in w or "action[" in w or "domain." in w for w in w2)):
@@ -387,6 +419,8 @@ def replay_history(task, state):
 
 
 PROGRAMS = [
+    # the only numeric comparison sits inside a nested junction
+    ("P1", ["and", ["p", "?x"], ["or", ["r"], [">=", ["f", "?x"], ["g"]]]], ["and", ["when", ["r"], ["increase", ["g"], "1"]], ["not", ["p", "?x"]]]),
     ("P2", ["and", ["p", "?x"], [">=", ["f", "?x"], ["g"]]], ["and", ["not", ["p", "?x"]], ["increase", ["f", "?x"], "1"]]),
     ("P2", ["and", ["or", ["p", "?x"], ["q", "?x", "?y"]]], ["and", ["when", ["q", "?x", "?y"], ["and", ["not", ["q", "?x", "?y"]], ["assign", ["g"], ["f", "?y"]]]], ["p", "?y"]]),
     ("P1", ["and", ["forall", ["?z", "-", "t1"], ["and", ["not", ["q", "?z", "?x"]]]]], ["and", ["forall", ["?z", "-", "t3"], ["when", ["p", "?z"], ["and", ["not", ["p", "?z"]], ["increase", ["f", "?z"], ["g"]]]]]]),
@@ -421,6 +455,17 @@ def tasks_for(tier, seed):
                     tasks.append(dict(domain_text=text, action="act", args=args_list[0], objects=dict(G.OBJECTS), mode="apply",
                                       label=f"[first state omits {omit}] pre {sexpr.render(pre)} eff {sexpr.render(eff)}", c1=c1, c2=c2,
                                       cap=8, frame_atoms=0, omit=omit, max_paths=400 if tier == "quick" else 4000))
+    # an operator built WITHOUT the problem's objects (quantifiers then range over the objects that occur in the state it is
+    # asked about) used on two states with independent facts
+    pl, pre, eff = PROGRAMS[3]
+    text = G.domain_text([("act", G.PARAM_LISTS[pl], pre, eff)], const=True)
+    for c1, c2 in (("applicable", "applicable_other_state"), ("applicable_other_state", "applicable"),
+                   ("apply_allow", "apply_other_state"), ("applicable", "apply_other_state")):
+        for args in G.arg_tuples(G.PARAM_LISTS[pl], True, limit=2):
+            tasks.append(dict(domain_text=text, action="act", args=args, objects=dict(G.OBJECTS), mode="apply", with_objects=False,
+                              label=f"[operator without problem objects; independent second state] pre {sexpr.render(pre)} "
+                                    f"eff {sexpr.render(eff)}", c1=c1, c2=c2, cap=8, frame_atoms=0, state2_atoms="independent",
+                              max_paths=400 if tier == "quick" else 4000))
     return tasks
 
 
